@@ -41,7 +41,12 @@ func c07IdiomContext(f *SFile, o *Occ) bool {
 		case EBinop:
 			switch e.Tok.Text {
 			case "==":
-				if mode == 1 && e.B != nil && e.B.K == ENil {
+				// (the tool looks through parentheses around the nil: `x == (nil)`)
+				rhs := e.B
+				for rhs != nil && rhs.K == EParen {
+					rhs = rhs.A
+				}
+				if mode == 1 && rhs != nil && rhs.K == ENil {
 					a = true
 				}
 			case "or":
